@@ -82,6 +82,37 @@ TYPE_BITS = {"connect": R.CONNECT, "connect_ack": R.CONNECT | R.ACK, "close": R.
              "rrs_register": 0, "rrs_offline": 0, "rrs_status": 0, "data_other": 0, "data_ack": R.ACK, "reject": R.REJECT}
 RRS_OPCODE = {"rrs_register": R.RRS_REQUEST, "rrs_offline": R.RRS_OFFLINE, "rrs_status": R.RRS_STATUS_CHECK}
 PINGPONG_BOUND = 3
+
+
+def _trailer_collisions():
+    """Radio addresses (per RRS opcode) for which the COMPUTED trailer of the frame collides with a delimiter: found by brute force over
+    the reference encoder.  (a) checksum octet == terminator 0x03 with 0 / 1 / 2 / 3 trailing 0x03 octets in the address, (b) checksum
+    == 0x00, 0xFF, 0x7E, the service octet, the opcode octet, the HSTRP magic octets, with and without a trailing 0x03 in the address."""
+    out = {}
+    for cls, opc in RRS_OPCODE.items():
+        found = []
+
+        def search(target, tail):
+            for a in range(256):
+                for b in range(256):
+                    ip = [bytes([10, a, b, 1]), bytes([10, a, b, 3]), bytes([10, a, 3, 3]), bytes([a, 3, 3, 3])][tail]
+                    if R.enc_rrs(opc, ip)[-2] == target and ip.hex() not in found:
+                        return ip.hex()
+            raise AssertionError("no such address")
+
+        for tail in (0, 1, 2, 3):
+            found.append(search(0x03, tail))
+        for target in (0x00, 0xFF, 0x7E, R.RRS_SERVICE, opc, 0x32, 0x42):
+            for tail in (0, 1):
+                found.append(search(target, tail))
+        out[cls] = found
+    return out
+
+
+TRAILER_RADIOS = _trailer_collisions()
+# [checksum 03 / address ends in 03] for the opcode itself; register + later going-offline of one radio needs the OFFLINE collision address
+A_REG, A_OFF, A_STATUS = TRAILER_RADIOS["rrs_register"][1], TRAILER_RADIOS["rrs_offline"][1], TRAILER_RADIOS["rrs_status"][1]
+END_03_OPTS = [[[4, "03"]], [[3, "00000003"]], [[3, "03030303"]], [[5, "03"], [4, "03"]], [[3, "0001869f"], [1, ""]], [[7, "03"], [6, "03"], [3, "03030303"]]]
 REPEAT_COUNTS = [2, 3, 4, 5, 6, 7, 8, 9, 10, 11, 12, 16, 17, 31, 32, 33, 64, 100, 128, 255, 256, 257, 300]
 
 
@@ -564,12 +595,12 @@ def exh_op(ci: int, p: int) -> dict:
         op["sn"] = 0 if p % 2 == 0 else 7 + p
     else:
         op["sn"] = _EXH_SN[(p + ci) % 6]
-    if cls == "rrs_register":
-        op["radio"] = RADIOS[p % 2]
-    elif cls == "rrs_offline":
-        op["radio"] = RADIOS[(p + 1) % 2]
+    if cls == "rrs_register":  # positions 2.. also use addresses whose frame trailer collides with the terminator (see _trailer_collisions)
+        op["radio"] = [RADIOS[0], RADIOS[1], A_REG, A_OFF, RADIOS[0], A_REG][p % 6]
+    elif cls == "rrs_offline":  # A_OFF registers (fine) at position 3 and goes offline (colliding trailer) at position 4
+        op["radio"] = [RADIOS[1], RADIOS[0], A_OFF, A_REG, A_OFF, RADIOS[0]][p % 6]
     elif cls == "rrs_status":
-        op["radio"] = RADIOS[p % 3]
+        op["radio"] = [RADIOS[0], RADIOS[1], A_STATUS, RADIOS[2]][p % 4]
     elif cls == "data_other":
         op["pl"] = {"other": (p * 5 + ci) % len(OTHER_PAYLOADS)}
     elif cls == "reject":
@@ -601,6 +632,22 @@ def _valid_utf16(b: bytes) -> bool:
         return False
 
 
+_TMP_COLL = []
+
+
+def _tmp_trailer_collisions():
+    """TMP text messages whose checksum octet equals 03 / 00 / FF / 7E while the text ends in 03 03 (U+0303) or in 03 00: the request id is
+    searched with the reference encoder"""
+    if not _TMP_COLL:
+        for text in ("ab\u0303", "\u0303\u0303", "x\x03", "\u0303"):
+            for target in (0x03, 0x00, 0xFF, 0x7E):
+                for rid in range(1, 1 << 16):
+                    if R.enc_tmp_message(False, rid, bytes.fromhex("0a000003"), bytes.fromhex("0a000303"), text.encode("utf-16-le"))[-2] == target:
+                        _TMP_COLL.append({"tmp": {"group": False, "rid": rid, "dst": "0a000003", "src": "0a000303", "text": text}})
+                        break
+    return _TMP_COLL
+
+
 def collision_probes(pos: int, strict_only: bool = False):
     """Free octets of one datagram that look like the framing of another: (ci, op) pairs.
     Well-formed (judged strictly): option data equal to the first octets of every class datagram / to option TLV headers / to an HDAP
@@ -610,7 +657,7 @@ def collision_probes(pos: int, strict_only: bool = False):
     grams = [build(exh_op(ci, pos)) for ci in range(len(CLASSES))]
     heads = sorted({g[:4].ljust(4, b"\x00").hex() for g in grams} | set(_TLV_LIKE))
     opt_lists = [[[3, h]] for h in heads] + [[[3, "0001869f"], [4, "83"]], [[4, "04"], [3, "04010201"]], [[1, ""], [5, "01"], [6, "03"]], [[7, "32"], [4, "11"]],
-                                            [[4, "84"], [4, "01"], [3, "32420005"]]]
+                                            [[4, "84"], [4, "01"], [3, "32420005"]]] + END_03_OPTS
     for ci, cls in enumerate(CLASSES):
         if cls in ("heartbeat", "damaged"):
             continue
@@ -620,6 +667,12 @@ def collision_probes(pos: int, strict_only: bool = False):
         if cls in RRS_OPCODE:
             for h in _TLV_LIKE:
                 yield ci, dict(base, radio=h)
+            for h in TRAILER_RADIOS[cls]:  # computed trailer (checksum) colliding with the terminator / other delimiters
+                yield ci, dict(base, radio=h)
+                yield ci, dict(base, radio=h, opts=[], reliable=True)
+        if cls == "data_other":
+            for pl in _tmp_trailer_collisions():
+                yield ci, dict(base, pl=pl)
         if cls == "data_other":
             for g in grams:
                 text = g if len(g) % 2 == 0 else g + b"\x00"
@@ -688,6 +741,8 @@ def drv_exhaustive(ctx: Ctx, sub: SubCheck):
                 seq.pop()
                 ops.pop()
                 r.restore(s)
+            if ctx.quick and (seq[0] * 5 + seq[1]) % 3:  # quick: collision probes after a third of the length-2 sequences (all after <= 1 datagram)
+                return
             for ci, probe in collision_probes(len(seq), strict_only=ctx.quick):  # quick: the bounded-only ones after <= 1 datagram only
                 s = r.snapshot()
                 ok = visit(ci, probe)
@@ -793,7 +848,7 @@ def drv_pair(ctx: Ctx, sub: SubCheck):
 # ---------------------------------------------------------------------------------------------------- random part
 
 
-def _strategies(pair: bool = False):
+def _strategies(pair: bool = False, long_runs: bool = True):
     from hypothesis import strategies as st
 
     sn = st.one_of(st.sampled_from([0, 1, 2, 255, 256, 32767, 32768, 65534, 65535]), st.integers(0, 65535))
@@ -805,7 +860,8 @@ def _strategies(pair: bool = False):
     )
     opts = st.one_of(st.just([]), st.just([[3, "0001869f"], [4, "02"]]), st.lists(opt, max_size=3))
     ip4 = st.binary(min_size=4, max_size=4).map(bytes.hex)
-    radio = st.one_of(st.sampled_from(RADIOS), st.sampled_from(RADIOS), ip4)
+    colliding = st.sampled_from(sorted({a for v in TRAILER_RADIOS.values() for a in v}))
+    radio = st.one_of(st.sampled_from(RADIOS), st.sampled_from(RADIOS), ip4, colliding, st.sampled_from([A_REG, A_OFF, A_STATUS]))
     src = st.integers(0, len(PEERS) - 1)
     # texts: random, constant fill, a short record repeated, characters codecs treat specially (BOM, U+FFFE, U+FFFD, NUL, CR/LF) and
     # characters whose UTF-16-LE image contains the octets of an enclosing layer ('2B' magic, 0x03 HDAP end, 7E, option TLV headers)
@@ -866,7 +922,8 @@ def _strategies(pair: bool = False):
         st.tuples(anyop, garbage, anyop).map(list),
     )
     small = st.sampled_from([2, 3, 4, 5, 6, 7, 8, 9, 10, 11, 12, 16, 17, 31, 32, 33])
-    n_rep = st.one_of(small, small, st.sampled_from(REPEAT_COUNTS)) if not pair else st.sampled_from([2, 3, 5, 10, 11, 17])
+    # (quick: runs up to 33 here - class_runs covers 300 deterministically; thorough: the whole list)
+    n_rep = (st.one_of(small, small, st.sampled_from(REPEAT_COUNTS)) if long_runs else small) if not pair else st.sampled_from([2, 3, 5, 10, 11, 17])
     rules["repeat"] = st.fixed_dictionaries({"k": st.just("repeat"), "n": n_rep, "ops": block})
     return rules
 
@@ -880,7 +937,7 @@ def _initial_ops():
 
 
 def drv_random(ctx: Ctx, sub: SubCheck):
-    M = make_machine("HSTRPHandlerMachine", Runner, _strategies(), initial_ops=_initial_ops())
+    M = make_machine("HSTRPHandlerMachine", Runner, _strategies(long_runs=not ctx.quick), initial_ops=_initial_ops())
 
     def work(shard, t: Tally):
         ctx.state_machine(sub.name, M, max_examples=ctx.pick(20, 100), step_count=ctx.pick(50, 200), tally=t, shard=shard)
@@ -905,6 +962,9 @@ def drv_runs(ctx: Ctx, sub: SubCheck):
         op = exh_op(ci, 2)
         blocks = {"same_op": [op], "position_variants": [exh_op(ci, p) for p in range(8)], "with_garbage": [op, garbage], "with_truncated": [op, cut],
                   "with_ack": [op, ack], "heartbeat_between": [op, hb]}
+        if CLASSES[ci] in RRS_OPCODE:  # every address whose computed trailer collides with a delimiter; register first so that offline is a change
+            reg = CLASSES.index("rrs_register")
+            blocks["trailer_collisions"] = [o for a in TRAILER_RADIOS[CLASSES[ci]] for o in (dict(exh_op(reg, 0), radio=a), dict(op, radio=a))]
         for name, block in blocks.items():
             reps = n if len(block) <= 2 else max(1, n // len(block))
             case = {"ops": [{"k": "init", "handler": kind, "sn": 0}] + modes[mode] + [{"k": "repeat", "n": reps, "ops": block}, hb, connect, hb, close, hb]}
